@@ -184,6 +184,20 @@ type guard struct {
 	Cond  ssa.Value
 	Truth bool
 	If    *ssa.If
+	// Sub is set for a condition that holds inside a predicate helper the guard calls
+	// (`if isValid(x, n)`): it maps the helper's parameters to the arguments of that call, so that
+	// the operands of Cond can be read in the caller's terms with operand().
+	Sub map[ssa.Value]ssa.Value
+}
+
+// operand translates an operand of g.Cond into the guarded function's own values.
+func (g guard) operand(v ssa.Value) ssa.Value {
+	if g.Sub != nil {
+		if r, ok := g.Sub[v]; ok {
+			return r
+		}
+	}
+	return v
 }
 
 // guardsAt returns the branch conditions known on entry to block b: for each dominating If whose
@@ -203,12 +217,96 @@ func guardsAt(b *ssa.BasicBlock) []guard {
 			continue
 		}
 		if p.Succs[0] == d && p.Succs[1] != d {
-			out = append(out, guard{ifi.Cond, true, ifi})
+			out = append(out, guard{Cond: ifi.Cond, Truth: true, If: ifi})
 		} else if p.Succs[1] == d && p.Succs[0] != d {
-			out = append(out, guard{ifi.Cond, false, ifi})
+			out = append(out, guard{Cond: ifi.Cond, Truth: false, If: ifi})
 		}
 	}
-	return expandBoolPhis(out, 3)
+	return expandHelperGuards(expandBoolPhis(out, 3))
+}
+
+// ModuleFilter tells guard expansion which callees belong to the analysed module.
+var moduleFilter func(*ssa.Function) bool
+
+// expandHelperGuards: a guard that calls a small predicate helper of the module (`if isValid(x, n)`)
+// implies every condition that holds on all paths of the helper returning the guarded truth value.
+// Those conditions are appended with a parameter → argument substitution (guard.Sub).
+func expandHelperGuards(gs []guard) []guard {
+	var extra []guard
+	for _, g := range gs {
+		if g.Sub != nil {
+			continue
+		}
+		cond, truth := g.atom()
+		call, ok := cond.(*ssa.Call)
+		if !ok {
+			continue
+		}
+		h := call.Call.StaticCallee()
+		if h == nil || h.Blocks == nil || len(h.Blocks) > 12 || moduleFilter == nil || !moduleFilter(h) {
+			continue
+		}
+		if h.Signature.Results().Len() != 1 || !isBoolType(h.Signature.Results().At(0).Type()) {
+			continue
+		}
+		sub := map[ssa.Value]ssa.Value{}
+		for i, p := range h.Params {
+			if i < len(call.Call.Args) {
+				sub[p] = call.Call.Args[i]
+			}
+		}
+		// conditions per return that can yield `truth`, then their intersection
+		var common []guard
+		first := true
+		for _, b := range h.Blocks {
+			ret, ok := b.Instrs[len(b.Instrs)-1].(*ssa.Return)
+			if !ok {
+				continue
+			}
+			rv := ret.Results[0]
+			if k, isK := rv.(*ssa.Const); isK && k.Value != nil && constant.BoolVal(k.Value) != truth {
+				continue
+			}
+			var here []guard
+			for d := b; d != nil; d = d.Idom() {
+				if len(d.Preds) != 1 {
+					continue
+				}
+				p := d.Preds[0]
+				ifi, ok := p.Instrs[len(p.Instrs)-1].(*ssa.If)
+				if !ok {
+					continue
+				}
+				if p.Succs[0] == d && p.Succs[1] != d {
+					here = append(here, guard{Cond: ifi.Cond, Truth: true, If: ifi})
+				} else if p.Succs[1] == d && p.Succs[0] != d {
+					here = append(here, guard{Cond: ifi.Cond, Truth: false, If: ifi})
+				}
+			}
+			if _, isK := rv.(*ssa.Const); !isK {
+				here = append(here, guard{Cond: rv, Truth: truth})
+			}
+			here = expandBoolPhis(here, 3)
+			if first {
+				common, first = here, false
+				continue
+			}
+			var keep []guard
+			for _, a := range common {
+				for _, bb := range here {
+					if a.Cond == bb.Cond && a.Truth == bb.Truth {
+						keep = append(keep, a)
+						break
+					}
+				}
+			}
+			common = keep
+		}
+		for _, a := range common {
+			extra = append(extra, guard{Cond: a.Cond, Truth: a.Truth, If: g.If, Sub: sub})
+		}
+	}
+	return append(gs, extra...)
 }
 
 // expandBoolPhis: a guard on a boolean that was built by short-circuit code (`x := a && b; if x`, which
@@ -252,20 +350,20 @@ func expandBoolPhis(gs []guard, depth int) []guard {
 				continue
 			}
 			if p.Succs[0] == d && p.Succs[1] != d {
-				add = append(add, guard{ifi.Cond, true, ifi})
+				add = append(add, guard{Cond: ifi.Cond, Truth: true, If: ifi})
 			} else if p.Succs[1] == d && p.Succs[0] != d {
-				add = append(add, guard{ifi.Cond, false, ifi})
+				add = append(add, guard{Cond: ifi.Cond, Truth: false, If: ifi})
 			}
 		}
 		if ifi, ok := pred.Instrs[len(pred.Instrs)-1].(*ssa.If); ok {
 			if pred.Succs[0] == phi.Block() && pred.Succs[1] != phi.Block() {
-				add = append(add, guard{ifi.Cond, true, ifi})
+				add = append(add, guard{Cond: ifi.Cond, Truth: true, If: ifi})
 			} else if pred.Succs[1] == phi.Block() && pred.Succs[0] != phi.Block() {
-				add = append(add, guard{ifi.Cond, false, ifi})
+				add = append(add, guard{Cond: ifi.Cond, Truth: false, If: ifi})
 			}
 		}
 		if _, isK := phi.Edges[cand].(*ssa.Const); !isK {
-			add = append(add, guard{phi.Edges[cand], truth, g.If})
+			add = append(add, guard{Cond: phi.Edges[cand], Truth: truth, If: g.If})
 		}
 		// keep only facts not already known
 		for _, a := range add {
